@@ -27,6 +27,7 @@ prop(
     shards={"quick": 8, "thorough": 16},
     min_evaluations={"quick": 20000, "thorough": 400000},
     must_see=[("framing_mutations", 9), ("bitflip_rejected", 1000)],
+    builds={"quick": ["b1"], "thorough": ["b1", "miri"]},
 )
 
 # properties not claimed (yet), with the reason shown in MANIFEST.not_applicable
@@ -191,4 +192,69 @@ prop(
     min_evaluations={"quick": 150, "thorough": 1500},
     must_see=[("deviation_detected", 100), ("step_families_faulted", 20), ("honest_runs_validated_and_opened", 5)],
     watchdog_s={"quick": 1200, "thorough": 7200},
+)
+
+prop(
+    "C15",
+    level="exploration",
+    rule=("cases = (entry point in {seq_join, seq_try_join_all, SeqJoin::try_join, SeqJoin::parallel_join, validated_seq_join}) x "
+          "input length n x window w in 1..8 x task kinds (gated; completes after a task d <= w-1 positions earlier / later; Ok or "
+          "Err result) x source kind (always ready / items behind gates => Pending between items) x schedule (order in which the "
+          "test opens gates and source items, runs to quiescence, spurious polls): every permutation of the gated tasks for n <= 6 "
+          "(quick) / n <= 7 (thorough) on the deterministic poll scheduler, seeded schedules for 7 <= n <= 40; validated_seq_join "
+          "with the semi-honest and the malicious DZKP validator (records per batch 1,2,4,8 => window = batch) for every "
+          "permutation of n <= 4 (quick) / 5 (thorough) x error positions on the paused-clock runtime; thorough additionally runs the "
+          "multi-threaded implementation on tokio multi-thread runtimes with 2..8 workers (build b4: all permutations n <= 6, seeded "
+          "n <= 40). A case is distinct by (entry point, variant, n, w, source kind, task kinds, schedule, executor) and non-trivial "
+          "when n >= 1 (at least one task went through the join and the oracle decided)"),
+    assumptions=[
+        "'in flight' is read as 'pulled from the source and result not yet yielded' (the window): a task that completed out of "
+        "order keeps its slot until everything before it has been yielded; Pending returns where fewer than min(w, remaining) "
+        "tasks were unfinished for that reason are counted (window_slots_held_by_completed), not reported",
+        "progress is asserted only for dependency distance <= w-1 (earlier or later task inside the window); distance >= w is not exercised",
+        "parallel_join 'first error' accepts first in input order among the errors that had happened, or first in logical time",
+        "multi-threaded implementation: verdicts from logical events only; an expired run_mt wall deadline is inconclusive; "
+        "window lower bound only with an always-ready source; 'polled at least once / re-polled' not observable (tasks are spawned)",
+        "validated_seq_join: items record no multiplications (empty batches validate without communication, one helper's context "
+        "suffices); an item error may surface at any position of the failing item's validation batch; a panic of the validator's "
+        "drop check after the join's outcome was decided is counted (validated_validator_drop_panics_after_outcome), not judged here",
+    ],
+    builds={"quick": ["b1"], "thorough": ["b1", "b4", "miri"]},
+    shards={"quick": 8, "thorough": 16},
+    min_evaluations={"quick": 150000, "thorough": 1000000},
+    must_see=[("variants", 16), ("windows", 8), ("pending_returns", 20000), ("lower_bound_checks_need_ge2", 5000),
+              ("repoll_checks", 5000), ("out_of_order_completions", 5000), ("dependency_distances", 8),
+              ("tasks_cancelled_by_early_exit", 1000), ("validated_batch_and_window", 7), ("error_positions", 20)],
+)
+
+prop(
+    "C17",
+    level="exploration",
+    rule=("cases = (parser, byte string, delivery) where parser in {RecordsStream<T,Single|Batch> for harness records of 1..8 bytes and "
+          "16 real field/boolean-array/share types, LengthDelimitedStream<T> (T keeps / T fails on a marker byte) alone and through "
+          "try_flatten_iters, BufferedBytesStream alone and in front of RecordsStream, process_slice_by_chunks, process_stream_by_chunks, "
+          "Chunk::unpack, TryFlattenIters, FixedLength}; delivery = ALL 2^(n-1) chunkings of every test stream of n <= 11 (quick) / 14 "
+          "(thorough) bytes, each also with Pending before every chunk, with one empty chunk inserted at every position, with empty "
+          "chunks everywhere, and (n <= 9 / 12) with an upstream Err at every position; seeded chunkings (9 styles) of streams up to "
+          "4 KiB with record lengths {0..300}; every verdict is against an independent reference parser over the contiguous bytes; a "
+          "case is distinct by (parser, stream length, content variant, #chunks, #empty chunks, upstream error?, Pending?, outcome "
+          "class) and non-trivial when the byte string is non-empty and the oracle decided it"),
+    assumptions=[
+        "a stream is consumed the way try_collect does: polling stops at the first Err item (RecordsStream repeats its trailing-data "
+        "error when polled again, that is outside the property)",
+        "errors are compared by class (trailing partial data = io WriteZero, failed deserialisation / try_from = ParseError / io "
+        "InvalidData, upstream error = io UnexpectedEof carrying the upstream message), not by message text",
+        "items of the batch being assembled may be dropped when an error is hit (DESIGN section 6 item 6): before an error the batching "
+        "parsers must yield a prefix of the reference records, the one-record-per-poll parser exactly the records before the error",
+        "FixedLength with a declared length that differs from the real one trips its documented debug-build assertion; that loud "
+        "rejection is counted (fixed_length_mismatch_debug_assert), not reported",
+    ],
+    builds={"quick": ["b1"], "thorough": ["b1", "miri"]},
+    shards={"quick": 8, "thorough": 16},
+    min_evaluations={"quick": 2_000_000, "thorough": 20_000_000},
+    must_see=[("parsers", 70), ("record_sizes", 8), ("ld_record_lengths", 301), ("truncation_sites", 5), ("chunking_styles", 9),
+              ("chunkings_enumerated", 200_000), ("parses_with_pending_upstream", 100_000), ("parses_with_empty_chunks", 100_000),
+              ("held_err_upstream", 100_000), ("held_err_trailing_partial_data", 100_000), ("held_err_invalid_record", 100_000),
+              ("held_all_records", 100_000), ("held_rechunked", 10_000), ("held_unpack", 500), ("held_slice_chunks", 500),
+              ("held_stream_chunks", 500), ("held_flatten_err", 500), ("held_fixed_length", 300)],
 )
